@@ -1,9 +1,258 @@
+import RsMatterVerif.Model.Pase
 import Driver.Util
-/-! Driver for C02: not built yet. -/
+/-! Driver for C02: replays the harness' scripts (window operations, virtual time, PASE initiators
+played message by message against the real responder) on `Model/Pase` and evaluates the
+specification on the implementation's observations: a PASE session appears only at a Pake3 that
+carries the right proof for the right transcript while the window is open; failures are counted;
+the window is revoked at the threshold; advertised ⇔ window present. -/
 namespace Driver.C02
+open Pase
 
-def run : IO UInt32 := do
-  IO.eprintln "C02: driver not built yet"
-  return 2
+abbrev KV := List (String × String)
+
+def kvOf (ws : List String) : KV :=
+  ws.filterMap fun w =>
+    match w.splitOn "=" with
+    | k :: v :: rest => some (k, "=".intercalate (v :: rest))
+    | _ => none
+
+def KV.get (m : KV) (k : String) : Option String := (m.find? (·.1 = k)).map (·.2)
+def KV.num (m : KV) (k : String) : Nat := ((m.get k).bind String.toNat?).getD 0
+
+/-- what initiator `k` knows (symbolically) -/
+structure Ini where
+  k : Nat
+  ctx : Option Nat := none
+  pw : Nat := 0
+  /-- the window instance whose salt / iteration count the PBKDFParamResponse carried -/
+  salt : Nat := 0
+  pB : Option Nat := none
+  /-- the exchange is still usable from the initiator's side -/
+  live : Bool := true
+
+def Ini.conf (i : Ini) : Option Conf :=
+  match i.ctx, i.pB with
+  | some c, some b => some { pw := i.pw * 1000 + i.salt, ctx := c, pA := i.k, pB := b }
+  | _, _ => none
+
+/-- the specification's own book-keeping (written from the property text, independent of `step`) -/
+structure Spec where
+  /-- window: (passcode, expiry, failures) -/
+  win : Option (Nat × Nat × Nat) := none
+  sessions : Nat := 0
+  /-- the window expired and the device was not yet seen without it (allowed until the next poll) -/
+  lingering : Bool := false
+
+structure St where
+  m : Pase.St := {}
+  devPw : Nat := 0
+  /-- a handshake message is mutated in flight: the case is judged by the oracle only -/
+  tamper : Bool := false
+  /-- number of windows opened so far: every window draws a fresh salt, so its verifier (the
+  model's passcode class) is (passcode, window instance) -/
+  opens : Nat := 0
+  t0 : Option Nat := none
+  inis : List Ini := []
+  /-- time (ms, case-relative) at which the responder task of exchange `x` last heard from its peer -/
+  last : List (Nat × Nat) := []
+  spec : Spec := {}
+
+/-- the responder's own receive timeout lies between these bounds (MRP ladders + 30 s processing
+allowance); scripts never leave a live handshake idle for a time in between -/
+def aliveBelowMs : Nat := 30000
+def deadAboveMs : Nat := 45000
+
+def obsOf (s : Pase.St) : String :=
+  let w := if s.window.isSome then "1" else "0"
+  let f := match s.window with | some x => toString x.failures | none => "-"
+  let mk := if s.marker.isSome then "1" else "0"
+  let adv := if advertised s then "1" else "0"
+  s!"w={w} f={f} m={mk} s={s.sessions.length} adv={adv}"
+
+def replyOf : Out → String
+  | .none => "silent"
+  | .ok => "ok"
+  | .errBusy => "err:Busy"
+  | .errInvalidCommand => "err:InvalidCommand"
+  | .pbkdfResp _ => "pbkdfresp"
+  | .pake2 _ => "pake2"
+  | .statusSuccess => "status:0"
+  | .statusInvalidParameter => "status:2"
+  | .statusBusy => "status:4"
+  | .statusSessionNotFound => "status:3"
+  | .dropped => "silent"
+
+def touch (st : St) (x now : Nat) : St := { st with last := (x, now) :: st.last.filter (·.1 ≠ x) }
+
+/-- let responder tasks whose peer stayed silent beyond the receive timeout die; `none` = a task is
+inside the indeterminate band -/
+def reap (st : St) (now : Nat) : Option St :=
+  st.m.tasks.foldl (fun acc t =>
+    match acc with
+    | none => none
+    | some st =>
+      match st.last.find? (·.1 = t.exch) with
+      | none => some st
+      | some (_, l) =>
+        if now ≥ l + deadAboveMs then some { st with m := (step st.m (.dead t.exch)).1 }
+        else if now > l + aliveBelowMs then none
+        else some st) (some st)
+
+def specExpire (sp : Spec) (now : Nat) : Spec :=
+  match sp.win with
+  | some (_, e, _) => if now > e then { sp with win := none, lingering := true } else sp
+  | none => sp
+
+def step (st : St) (line : String) : St × String :=
+  let (op, out) := splitArrow line
+  match words op with
+  | "case" :: _ :: rest => ({ devPw := (kvOf rest).num "pw", tamper := ((kvOf rest).get "tamper").isSome }, "case")
+  | head :: rest =>
+    let m := kvOf rest
+    -- impl answer: `t=<ms> <reply> | <observation>`
+    let (lhs, obs) := match out.splitOn " | " with
+      | [a, b] => (a, b)
+      | _ => (out, "")
+    let lw := words lhs
+    let t := ((lw.head?.map (fun w => (w.drop 2).toString)).bind String.toNat?).getD 0
+    let reply := " ".intercalate (lw.drop 1)
+    if reply = "skip" then (st, "ok") else
+    if st.tamper then
+      -- single-bit mutation of a handshake message in flight: no PASE session may result
+      let s := (kvOf (words obs)).num "s"
+      if obs ≠ "" && s > 0 then (st, "ORA session although a handshake message was mutated in flight")
+      else (st, "ok")
+    else
+    let t0 := st.t0.getD t
+    let now := t - t0
+    let st := { st with t0 := some t0 }
+    -- virtual time is an input: bring the model to `now`, reaping dead handshakes first
+    match reap st now with
+    | none => (st, "BAD a live handshake idles inside the receive-timeout band (generator must avoid this)")
+    | some st =>
+    let st := { st with m := (Pase.step st.m (.tick (now - st.m.now))).1 }
+    let sp := st.spec
+    let k := m.num "i"
+    let ini := (st.inis.find? (·.k = k)).getD { k := k }
+    let setIni (st : St) (i : Ini) : St := { st with inis := i :: st.inis.filter (·.k ≠ i.k) }
+    -- the model operation(s)
+    let (mop, st) : Option Op × St :=
+      match head with
+      | "open" => (some (.openWin (st.devPw * 1000 + st.opens + 1) (m.num "t")), st)
+      | "revoke" => (some .revoke, st)
+      | "tick" => (some (.tick (m.num "ms")), st)
+      | "poll" => (some .poll, st)
+      | "pbkdf" =>
+        let r := match m.get "req" with
+          | some "malformed" => Req.malformed
+          | some "pid" => Req.passcodeIdNonZero
+          | _ => Req.good
+        (some (.pbkdf k r), setIni st { k := k })
+      | "pake1" =>
+        let p := match m.get "pt" with
+          | some "zero" => Pt.identity
+          | some "offcurve" => Pt.offCurve
+          | some "short" => Pt.malformed
+          | _ => Pt.valid k
+        (some (.pake1 k p), setIni st { ini with pw := m.num "pw" })
+      | "pake3" =>
+        let good := ini.conf
+        let c : Option CA := match m.get "ca" with
+          | some "flip" => some (.junk 1)
+          | some "zero" => some (.junk 0)
+          | some "short" => some .malformed
+          | some "good" | none => good.map .mac
+          | some other =>
+            match other.splitOn ":" with
+            | ["replay", j] =>
+              match ((st.inis.find? (·.k = j.toNat?.getD 0)).bind Ini.conf) with
+              | some cj => some (.mac cj)
+              | none => some (.junk 2)
+            | _ => some (.junk 3)
+        (c.map (.pake3 k ·), st)
+      | "abort" => (some (.other k), st)
+      | _ => (none, st)
+    match mop with
+    | none => (st, "BAD op")
+    | some mop =>
+      let (m', o) := Pase.step st.m mop
+      -- handshakes whose peer stays silent throughout a long `tick` die inside it
+      let reaped : Option Pase.St :=
+        if head = "tick" then (reap { st with m := m' } (now + m.num "ms")).map (·.m) else some m'
+      match reaped with
+      | none => (st, "BAD a live handshake idles inside the receive-timeout band (generator must avoid this)")
+      | some m' =>
+      -- what the initiator learns from the answer
+      let st := match o with
+        | .pbkdfResp ctx => setIni st { (st.inis.find? (·.k = k)).getD { k := k } with ctx := some ctx, salt := st.opens }
+        | .ok => if head = "open" then { st with opens := st.opens + 1 } else st
+        | .pake2 pB => setIni st { (st.inis.find? (·.k = k)).getD { k := k } with pB := some pB }
+        | _ => st
+      let st := if head = "pbkdf" || head = "pake1" || head = "pake3" || head = "abort" then touch st k now else st
+      -- the op itself takes (virtual) time: the observation is made after it
+      let st := { st with m := m' }
+      -- ---------------- specification on the implementation's observation ----------------
+      let o' := kvOf (words obs)
+      let implW := o'.get "w" = some "1"
+      let implS := o'.num "s"
+      let implAdv := o'.get "adv" = some "1"
+      let implF := (o'.get "f").bind String.toNat?
+      let sp := specExpire sp now
+      -- expected-by-spec effects of the op on the window
+      let sp := match head with
+        | "open" => if reply = "ok" then { sp with win := some (st.devPw, now + m.num "t" * 1000, 0) } else sp
+        | "revoke" => { sp with win := none }
+        | _ => sp
+      -- (1) a session appears only at a Pake3 with the right passcode, an unmodified / unreplayed
+      --     confirmation, while the window is open (present and unexpired)
+      let c1 : Option String :=
+        if implS > sp.sessions then
+          if head ≠ "pake3" then some s!"a PASE session appeared at a `{head}` step"
+          else if implS > sp.sessions + 1 then some "more than one session appeared"
+          else if (m.get "ca").getD "good" ≠ "good" then some "session although the confirmation was mutated / replayed"
+          else if ini.pw ≠ st.devPw then some "session although the passcode was wrong"
+          else if sp.win.isNone then some "session although no commissioning window is open (closed or expired)"
+          else none
+        else if implS < sp.sessions then some "a session disappeared"
+        else none
+      -- (2) advertised ⇔ window present
+      let c2 : Option String :=
+        if implAdv ≠ implW then some "commissionable mDNS record and window presence disagree" else none
+      -- (3) the window is revoked once the counter reaches the threshold
+      let c3 : Option String :=
+        if (implF.getD 0) ≥ 20 then some s!"window still open with {implF.getD 0} counted failures (the property says twenty)" else none
+      -- (4) a failed proof is counted: after a Pake3 answered `InvalidParameter` the counter moved or the window is gone
+      let c4 : Option String :=
+        if head = "pake3" && reply = "status:2" && implW then
+          match sp.win, implF with
+          | some (_, _, f), some f' => if f' = f + 1 then none else some s!"failed proof not counted ({f} -> {f'})"
+          | _, _ => none
+        else none
+      -- (5) no window by the spec's book-keeping (revoked / never opened / expired and polled) => none reported
+      let c5 : Option String :=
+        if implW && sp.win.isNone then
+          (if sp.lingering && head ≠ "poll" then none
+           else some "a window is reported although it was revoked, never opened, or expired and polled")
+        else none
+      let ora : Option String := c1 <|> c2 <|> c3 <|> c4 <|> c5
+      let sp := { sp with lingering := sp.lingering && implW }
+      let sp := { sp with sessions := implS,
+                          win := if implW then (match sp.win, implF with
+                                                | some (p, e, _), some f => some (p, e, f)
+                                                | w, _ => w)
+                                 else (if sp.win.isSome && (implF.isNone) then none else sp.win) }
+      let st := { st with spec := sp }
+      match ora with
+      | some why => (st, s!"ORA {why}")
+      | none =>
+        let mo := s!"{replyOf o} | {obsOf m'}"
+        let io := s!"{reply} | {obs}"
+        -- `tick` / `poll` / `abort` print `-` as reply
+        let mo := if head = "tick" || head = "poll" || head = "abort" then s!"- | {obsOf m'}" else mo
+        let mo := if head = "revoke" then s!"ok | {obsOf m'}" else mo
+        if mo = io then (st, "ok") else (st, s!"DIS {mo}")
+  | _ => (st, "BAD line")
+
+def run : IO UInt32 := Driver.runLoop ({} : St) step
 
 end Driver.C02
